@@ -26,14 +26,14 @@ CHECKS = {
     },
     "C03": {
         "scenarios": [{"name": "admission"}, {"name": "bank"}, {"name": "general", "tier": "thorough"}],
-        "accept": ["batch:", "nonneg:", "history-replay:balances-differ"],
+        "accept": ["batch:", "nonneg:", "history-replay:balances-differ", "transfer:"],
         "technique": "Lean: balance-table invariant (one row per address, no negative cell) proved for every primitive and lifted through the whole block transaction and every chain; rejected batch = no state change; accepted batch passed the funds check. Tie: bank-era chains with requests that are rejected when they execute (history replay = balances: a rejected batch contributes nothing); applyTransactionBatch (hook) on random 1-4 transaction batches vs the model; lock-step chains",
         "assumptions": ["per-asset column sums stay below 2^63 (no check in the code; SQLite would switch to REAL)"],
         "design_ref": "DESIGN.md §7 C03",
     },
     "C04": {
         "scenarios": [{"name": "ledger"}, {"name": "bank"}],
-        "accept": ["history-replay:", "nonneg:"],
+        "accept": ["history-replay:", "nonneg:", "conversion:amount:pip10", "transfer:"],
         "technique": "Lean: AddToBalance/SubFromBalance change the column sum by exactly their amount; a transfer changes its asset's supply by minus what went to the burn address and nothing else. Tie: era-crossing lock-step chain; monitor recomputes every balance from the recorded history + scheduled adjustments after every block",
         "assumptions": [ORACLES, "block-level sum of all event kinds is checked by the monitor, proved only per event kind (transfer, rejected batch)"],
         "design_ref": "DESIGN.md §7 C04",
